@@ -1,0 +1,8 @@
+//go:build !verif
+// +build !verif
+
+package xmpp
+
+// verifPoint is a no-op unless the package is built with the "verif" tag
+// (see verif_points_on.go).
+func verifPoint(string, string) {}
